@@ -126,7 +126,7 @@ def _handle(req):
     if k in HANDLERS:
         return HANDLERS[k](req)
     # extension modules register further kinds
-    for modname in ('pyvc.native_decoders', 'pyvc.native_stream', 'pyvc.native_misc'):
+    for modname in ('pyvc.native_decoders', 'pyvc.native_stream', 'pyvc.native_misc', 'pyvc.native_history'):
         try:
             m = importlib.import_module(modname)
         except ImportError:
